@@ -1238,27 +1238,32 @@ def loader_factor(paths):
 
 
 def write_truncate(flow):
-    """the length `<file>.truncate(·)` is called with in the method that writes one part of a file at an offset, as a Lean term
-    over (fileEnd, off, dlen)"""
+    """the length `<file>.truncate(·)` is called with where one part of a file is written at an offset (seek(offset), write(data)
+    on the same file object), as a Lean term over (fileEnd, off, dlen) — in a method of its own or inlined where it is used"""
     cands = []
+    units = []
     for name, node in flow.mod.classes.get(flow.cls, {}).items():
         src_names = {n.attr for n in ast.walk(node) if isinstance(n, ast.Attribute)}
-        if not {'truncate', 'seek', 'write'} <= src_names or len(node.args.args) != 4:
+        if not {'truncate', 'seek', 'write'} <= src_names:
             continue
-        params = [a.arg for a in node.args.args[1:]]
-        for q in returns(flow.top(name)):
-            for e in q.events:
+        top = returns(flow.top(name))
+        units.append(top)
+        for p in representatives(top):
+            units += [paths for _n, paths in flow.units_below(p, every=True)]
+    for paths in units:
+        for q in paths:
+            for e, chain, i, events in walk(q.events):
                 cp = call_parts(e) if e.kind == 'call' else None
                 if cp is None or cp[0][0] != 'attr' or cp[0][2] != 'truncate' or len(cp[1]) != 1 or e.c == 'inlined':
                     continue
                 fobj = e.a[2][1]
-                writes = [x for x in q.events if x.kind == 'call' and x.a[0] == 'call' and x.a[2][0] == 'attr' and x.a[2][2] == 'write'
-                          and F.same(x.a[2][1], fobj) and len(x.a[3]) == 1 and x.a[3][0][0] == 'param']
-                seeks = [x for x in q.events if x.kind == 'call' and x.a[0] == 'call' and x.a[2][0] == 'attr' and x.a[2][2] == 'seek'
-                         and F.same(x.a[2][1], fobj) and len(x.a[3]) == 1 and x.a[3][0][0] == 'param']
+                writes = [x for x in events if x.kind == 'call' and x.a[0] == 'call' and x.a[2][0] == 'attr' and x.a[2][2] == 'write'
+                          and F.same(x.a[2][1], fobj) and len(x.a[3]) == 1 and x.c != 'inlined']
+                seeks = [x for x in events if x.kind == 'call' and x.a[0] == 'call' and x.a[2][0] == 'attr' and x.a[2][2] == 'seek'
+                         and F.same(x.a[2][1], fobj) and len(x.a[3]) == 1 and x.c != 'inlined']
                 if len(writes) != 1 or len(seeks) != 1:
                     continue
-                data, off = writes[0].a[3][0], seeks[0].a[3][0]
+                data, off = F.strip(writes[0].a[3][0]), F.strip(seeks[0].a[3][0])
 
                 def leaf(x, fobj=fobj, data=data, off=off):
                     if x == off:
@@ -1271,7 +1276,7 @@ def write_truncate(flow):
                     return None
                 cands.append(translate(sym_src(cp[1][0], leaf), {'file_end': ('fileEnd', 'nat'), 'offset': ('off', 'nat'), 'dlen': ('dlen', 'nat')}, 'nat'))
     if not cands or len(set(cands)) != 1:
-        raise Untranslatable(f'write-part method not recognised ({len(set(cands))} candidates)')
+        raise Untranslatable(f'write-part code not recognised ({len(set(cands))} candidates)')
     return cands[0]
 
 
@@ -1300,7 +1305,12 @@ def piece_size(flow, path):
                     if calls and all(not c.args and not c.keywords for c in calls):
                         try:
                             consts = {k: v[1] for k, v in flow.mod.env.items() if v[0] == 'const'}
-                            vals.add(const_eval(defaults[n[1]], consts))
+                            d = defaults[n[1]]
+                            if isinstance(d, ast.Attribute) and isinstance(d.value, ast.Name) and d.value.id in ('self', 'cls', flow.cls):
+                                cc = flow.mod.class_consts.get(flow.cls, {}).get(d.attr)
+                                vals.add(cc[1] if cc is not None else None)
+                            else:
+                                vals.add(const_eval(d, consts))
                         except Exception:  # noqa: BLE001
                             vals.add(None)
                     else:
